@@ -16,7 +16,7 @@ for which in pre post; do
   echo "===== $which ($rev) =====" >> $log
   (cd $wt/node && cargo test -p zksync_consensus_roles --offline -j 6 --test verif_findings 2>&1 | grep -E "^test |test result|panicked at" ) >> $log
   (cd $wt/node && cargo test -p zksync_protobuf --offline -j 6 --test verif_findings 2>&1 | grep -E "^test |test result|panicked at" ) >> $log
-  (cd $wt/node && timeout 900 cargo test -p zksync_consensus_network --offline -j 6 verif_f4 2>&1 | grep -E "^test |test result|panicked at|error" | head -8 ) >> $log
+  (cd $wt/node && timeout 900 cargo test -p zksync_consensus_network --offline -j 6 verif_f4 2>&1 | grep -E "^test |test result|panicked at|^error|signal" | head -8 ) >> $log
   git -C /repo worktree remove --force $wt
 done
 echo done >> $log
